@@ -2,7 +2,7 @@
    Statements only. The sender's window functions are the go2coq translation
    of gbn/queue.go from this run; the system model is Model/Gbn.v; real
    histories are replayed through Model/GbnMonitor.v by the check. *)
-From LNC Require Import GoLite MessagesGen QueueGen Gbn GbnInv GbnSafety.
+From LNC Require Import GoLite MessagesGen QueueGen Codec Gbn GbnMonitor GbnInv GbnSafety MonitorSafety.
 Open Scope Z_scope.
 
 (* For every window size and EVERY event sequence (all channel drop / in-order
@@ -19,6 +19,23 @@ Print Assumptions c01_delivered_prefix.
 Theorem c01_never_panics : forall n evs, 1 <= n <= 254 -> drun (dinit n) evs <> DPanic.
 Proof. exact drun_no_panic. Qed.
 Print Assumptions c01_never_panics.
+
+(* Both directions at once, at the level of the API: in every history accepted by
+   the two-direction monitor (Send / Recv calls, every packet handed to or taken
+   from the transport, every channel decision), the messages returned by Recv on
+   one side are a prefix of the messages passed to Send on the other side. *)
+Theorem c01_messages : forall n cA cB evs st, 1 <= n <= 254 -> 0 <= cA -> 0 <= cB ->
+  mrun_all (minit n cA cB) evs = Some st ->
+  (a_send_failed (m_apiA st) = false -> is_prefix (a_returned (m_apiB st)) (a_accepted (m_apiA st))) /\
+  (a_send_failed (m_apiB st) = false -> is_prefix (a_returned (m_apiA st)) (a_accepted (m_apiB st))).
+Proof. exact mrun_messages. Qed.
+Print Assumptions c01_messages.
+
+(* the per-direction invariant holds in every state of every accepted history *)
+Theorem c01_monitor_invariant : forall n cA cB evs st, 1 <= n <= 254 ->
+  mrun_all (minit n cA cB) evs = Some st -> Inv (m_dA st) /\ Inv (m_dB st).
+Proof. exact mrun_inv. Qed.
+Print Assumptions c01_monitor_invariant.
 
 (* non-vacuity: a 27-event run with a drop, a duplicate, a NACK, retransmissions
    and a wrap of the sequence space (n = 2, s = 3) is accepted and delivers 5 packets *)
